@@ -3,6 +3,20 @@
 import glob, json, os
 V = os.path.dirname(os.path.dirname(os.path.abspath(__file__)))
 rows = []
+
+
+def reval(c):
+    r = c.get("revalidated")
+    if not r:
+        return ""
+    s = "%s: %d violation(s), %d with a failing input" % (
+        "DETECTED" if r["check_exit"] == 1 and r["violations"] else "NOT DETECTED", r["violations"],
+        r["violations_with_failing_input"])
+    if r["demo_with_patch"] == "PASS":
+        s += " (demo no longer fails on this HEAD: " + c.get("status_on_current_head", "")[:120] + ")"
+    return s + " @" + r["repo_head"]
+
+
 for d in sorted(glob.glob(os.path.join(V, "seeded", "*"))):
     try:
         m = json.load(open(os.path.join(d, "meta.json")))
@@ -10,18 +24,21 @@ for d in sorted(glob.glob(os.path.join(V, "seeded", "*"))):
         continue
     c = m.get("confirmed_by_coordinator", {})
     rows.append((os.path.basename(d), m.get("title", "?"), m.get("what_it_needs_to_manifest", m.get("needs", "?")),
-                 c.get("detected_by", "?"), c.get("after_strengthening", "")))
+                 c.get("detected_by", "?"), c.get("after_strengthening", ""), reval(c)))
 out = ["# Seeded property-breaking changes (generated from seeded/*/meta.json by tools/mkseeded_md.py)\n",
        "Each change was written by an independent sub-agent that saw only the property text and its own scratch worktree;",
        "it keeps the package importable and rope's 2104 tests passing, and comes with a demo that passes without and fails",
        "with the patch. The coordinator confirmed each (demo PASS/FAIL) and ran `VERIF_REPO=<worktree+patch> ./check <P> --no-proof`.",
        "`first run` = detected by the check as it was when the change was produced; `MISSED` entries led to strengthening the",
        "generator/oracle/model (column 5), after which the change is detected. Re-validate with `tools/validate_seeded.sh <P>`.\n",
-       "| id | change | needs to manifest | detection at first run | after strengthening |", "|---|---|---|---|---|"]
+       "",
+       "| id | change | needs to manifest | detection at first run | after strengthening | last re-validation (`tools/validate_seeded.sh`, quick tier, seed 0) |", "|---|---|---|---|---|---|"]
 for r in rows:
     out.append("| " + " | ".join(str(x).replace("|", "/").replace("\n", " ")[:400] for x in r) + " |")
 missed = sum(1 for r in rows if "MISSED" in r[3])
-out.insert(7, "Totals: %d changes, %d detected at first run, %d missed at first run (%d of those now detected).\n" % (
-    len(rows), len(rows) - missed, missed, sum(1 for r in rows if "MISSED" in r[3] and r[4])))
+out.insert(6, "Totals: %d changes, %d detected at first run, %d missed at first run (%d of those now detected).\n" % (
+    len(rows), len(rows) - missed, missed, sum(1 for r in rows if "MISSED" in r[3] and r[4])) +
+    "Last re-validation: %d of %d re-validated changes detected.\n" % (
+        sum(1 for r in rows if r[5].startswith("DETECTED")), sum(1 for r in rows if r[5])))
 open(os.path.join(V, "SEEDED.md"), "w").write("\n".join(out) + "\n")
 print("SEEDED.md: %d changes" % len(rows))
